@@ -39,7 +39,7 @@ func pertSites(lines []string) []Pert {
 		out = append(out, Pert{"trail", i, 0, 0}, Pert{"trail", i, 0, 1})
 	}
 	for b := 0; b <= len(lines); b++ {
-		for v := 0; v < 5; v++ {
+		for v := 0; v < 7; v++ {
 			out = append(out, Pert{"insert", b, 0, v})
 		}
 	}
@@ -81,6 +81,10 @@ func applyPerts(lines []string, ps []Pert) (string, bool) {
 				sb.WriteString(";name Some Name" + eol)
 			case 4:
 				sb.WriteString("; " + strings.Repeat("a very long comment line ", 3000) + eol)
+			case 5:
+				sb.WriteString(";REDCODE-94" + eol + ";NAME Upper" + eol + ";Author Mixed ; with ;assert 0 inside" + eol)
+			case 6:
+				sb.WriteString(";strategy" + eol + ";strategy x" + eol)
 			default:
 				sb.WriteString("   \t " + eol)
 			}
@@ -152,6 +156,10 @@ func applyPerts(lines []string, ps []Pert) (string, bool) {
 				sb.WriteString("   \t ")
 			case 4:
 				sb.WriteString("; " + strings.Repeat("a very long comment line ", 3000))
+			case 5:
+				sb.WriteString(";REDCODE-94" + eol + ";NAME Upper" + eol + ";Author Mixed ; with ;assert 0 inside")
+			case 6:
+				sb.WriteString(";strategy" + eol + ";strategy x")
 			}
 		}
 	} else {
@@ -266,6 +274,29 @@ func (c *Ctx) RunC09(tier string) {
 		}
 	}
 	rep.Bound += "; all 2-instruction and all (quick: a third of the) 3-instruction warriors over a 12-form alphabet with every entry point, each also under a maximum length equal to its length"
+
+	// (b2) long files: 300 instructions through both readers, 70000 through the loader
+	if c.Sh.I == 0 {
+		for _, legacy := range []bool{false, true} {
+			for _, n := range []int{300, 70000} {
+				if n > 300 && !thorough {
+					continue
+				}
+				M := uint64(1 << 20)
+				al := alphabet12(legacy, M)
+				code := make([]g.Instruction, n)
+				for i := range code {
+					code[i] = al[(i*5+1)%len(al)]
+					code[i].A = g.Address((uint64(i)*104729 + 7) % M)
+					code[i].B = g.Address((M - uint64(i) - 1) % M)
+				}
+				lines := ref.PrintLines(code, n-1, legacy, M, ref.SpellSigned)
+				t := &textCase{M: M, Legacy: legacy, Text: strings.Join(lines, "\n") + "\n", Code: hx.CoreStr(code), Start: n - 1, Note: fmt.Sprintf("%d instructions", n), MaxLen: uint64(n)}
+				c.check09(t)
+			}
+		}
+		rep.Bound += "; files of 300 (thorough: and 70000) instructions with the entry point on the last one"
+	}
 
 	// (c) layout perturbations: every set of <= 2 (quick: <= 1, <= 2 on the first warrior)
 	nw := 0
